@@ -11,11 +11,43 @@ ASSUME_QR = [
 ]
 
 
-def call(case):
-    """Executes one encode-type case against the real public function."""
+# the documented parameter order of the public factories (docs/api.rst), written down here independently
+DOCUMENTED_ORDER = {
+    'make': ['error', 'version', 'mode', 'mask', 'encoding', 'eci', 'micro', 'boost_error'],
+    'make_qr': ['error', 'version', 'mode', 'mask', 'encoding', 'eci', 'boost_error'],
+    'make_micro': ['error', 'version', 'mode', 'mask', 'encoding', 'boost_error'],
+    'make_sequence': ['error', 'version', 'mode', 'mask', 'encoding', 'boost_error', 'symbol_count'],
+}
+_DOC_DEFAULTS = {'error': None, 'version': None, 'mode': None, 'mask': None, 'encoding': None, 'eci': False, 'micro': None,
+                 'boost_error': True, 'symbol_count': None}
+
+
+def positional_args(fn_name, kw):
+    """The keyword arguments of a call as the positional arguments the documentation allows (None if a keyword is not
+    in the documented signature)."""
+    order = DOCUMENTED_ORDER.get(fn_name)
+    if order is None or any(k not in order for k in kw):
+        return None
+    last = max([order.index(k) for k in kw], default=-1)
+    return [kw.get(name, _DOC_DEFAULTS[name]) for name in order[:last + 1]]
+
+
+def by_position(case):
+    """Deterministic per case (a replay takes the same route): about every third call passes its options by position."""
+    import zlib
+    return zlib.crc32(repr((case.get('fn'), sorted(case.get('kw', {}).items(), key=repr))).encode('utf-8', 'replace')) % 3 == 0
+
+
+def call(case, positional=False):
+    """Executes one encode-type case against the real public function; with `positional` the options are passed by
+    position in the documented order (what arrives at the encoder is compared by check_forwarding)."""
     import segno
     fn = getattr(segno, case.get('fn', 'make'))
     try:
+        if positional:
+            args = positional_args(case.get('fn', 'make'), case.get('kw', {}))
+            if args is not None:
+                return fn(case['content'], *args), None
         return fn(case['content'], **case.get('kw', {})), None
     except Exception as ex:  # noqa: BLE001  the class is what the monitors look at
         return None, ex
@@ -34,7 +66,10 @@ def run_encode_cases(cases, rec, props, after=None, reach=True):
         monitors.State.last = None
         monitors.State.seq_last = None
         rec.count('evaluations')
-        q, ex = call(case)
+        positional = by_position(case)
+        if positional:
+            rec.count('calls_with_positional_options')
+        q, ex = call(case, positional)
         if ex is None:
             rec.count('accepted')
             check_forwarding(case, rec, sorted(props)[0] if props else 'C14')
@@ -76,6 +111,29 @@ def random_cases(rng, n, heavy=False, multi=0.15):
         if fn == 'make_micro':
             kw.pop('eci', None)
         out.append(mk(content, fn=fn, tag=cls, **kw))
+    return out
+
+
+def big_int_cases(rng, tier):
+    """Integer content with hundreds to thousands of digits, zero runs at every place a chunked conversion could cut
+    (600, 1000, 4000 digits from the end ...). Above 4300 digits Python's own int -> str limit makes the library refuse
+    (ValueError) - unless it converts by itself, and then the digits have to be all there."""
+    vals = [10 ** 600, 10 ** 600 + 5, 10 ** 599, 31415926535 * 10 ** 1200 + 2718281828, 10 ** 1200 - 1, 10 ** 1000 + 10 ** 500,
+            7 * 10 ** 2000 + 3, 10 ** 4299, 10 ** 4299 + 9, 10 ** 4300, 10 ** 4999 + 7, 3 * 10 ** 4000 + 1, 10 ** 7088, 10 ** 7088 + 123,
+            10 ** 7089, -(10 ** 1500) - 1, -(10 ** 5000)]
+    for _ in range(6 if tier == 'quick' else 60):
+        n = rng.randint(300, 4200)
+        digits = [str(rng.randint(1, 9))] + [rng.choice('0000123456789') for _ in range(n - 1)]
+        for cut in (600, 1000, 2000, 4000):
+            if cut + 3 < n and rng.random() < 0.6:
+                for j in range(rng.randint(1, 4)):
+                    digits[n - cut + j if n - cut + j < n else n - 1] = '0'
+        vals.append(int(''.join(digits)))
+    out = []
+    for v in vals:
+        out.append(mk(v, tag='big-int', error='L', micro=False))
+        if rng.random() < 0.4:
+            out.append(mk(v, tag='big-int'))
     return out
 
 
